@@ -103,3 +103,36 @@ ORDER_INIT = FSpec("Order.__init__", post=oi_post, raises={"ValueError": oi_rais
 def t_order_init():
     obl, info = ORDER_INIT.verify()
     return {"obligations": obl, "info": [info]}
+
+
+# ----------------------------------------------------------------------------- Order.is_expired / check_system_acceptable (C04: the public lifetime / ownership predicates)
+# These are the documented predicates a user program may call; the book itself expires through its expiry index (specs/book.py).  Their contracts state the
+# same relations the book and the market enforce: "expired at `time`" is exactly placed_at + ttl < time (never, without a ttl), and "acceptable from agent a"
+# is exactly: a is the owner, the object has not been placed, the order is not cancelled.
+def oe_post(st0, st1, a, res):
+    o = a["self"].term
+    return [("C04 an order is expired at `time` exactly when it has a time-to-live and placed_at + ttl < time",
+             truth_(res) == z3.And(z3.Not(O(st0, "ttl", "none")[o]), O(st0, "placed_at")[o] + O(st0, "ttl")[o] < a["time"].term))]
+
+
+def truth_(res):
+    return res.term if z3.is_bool(res.term) else res.term != 0
+
+
+ORDER_IS_EXPIRED = FSpec("Order.is_expired", post=oe_post, props=("C04",),
+                         raises={"Exception": lambda st, a: O(st, "placed_at", "none")[a["self"].term]}, modifies=lambda st, a: [])
+
+ORDER_ACCEPTABLE = FSpec("Order.check_system_acceptable", props=("C04",), modifies=lambda st, a: [],
+                         post=lambda st0, st1, a, res: [("returns normally only for the owner's unplaced, uncancelled order", z3.BoolVal(True))],
+                         raises={"AttributeError": lambda st, a: z3.Or(a["agent_id"].term != O(st, "agent_id")[a["self"].term], z3.Not(O(st, "placed_at", "none")[a["self"].term]),
+                                                                       O(st, "is_canceled")[a["self"].term])})
+
+
+@task("Order lifetime predicates", props=["C04"], functions=["Order.is_expired", "Order.check_system_acceptable"], replay="order_cmp")
+def t_order_predicates():
+    obl, info = [], []
+    for sp in (ORDER_IS_EXPIRED, ORDER_ACCEPTABLE):
+        o, i = sp.verify()
+        obl += o
+        info.append(i)
+    return {"obligations": obl, "info": info}
